@@ -522,7 +522,9 @@ HOSTILE = {
                      "application/x-www-form-urlencoded; charset=nope", "application/x-www-form-urlencoded; charset=utf-8", "application/x-www-form-urlencoded;charset=utf-16",
                      "multipart/form-data; boundary=b; charset=utf-16", "application/json; charset=idna", "application/json; charset=unicode_escape",
                      "application/x-www-form-urlencoded; charset=undefined", "application/json; charset=zlib", "multipart/form-data; boundary=b; charset=hex"],
-    "Content-Length": ["-1", "abc", "9" * 5000, "1.5", "١٢", "", " ", "0x10", "1e3", "٣"],
+    "Content-Length": ["-1", "abc", "9" * 5000, "1.5", "١٢", "", " ", "0x10", "1e3", "٣",
+                       # announced lengths that are integers but fit no machine word / no buffer: what a reader is asked for must stay sane
+                       str(2**63 - 1), str(2**63), str(2**64), "1" + "0" * 19, "9" * 30, "9" * 4300, "0" * 40 + "5", "+5", "5_0", "00"],
     "Cookie": ["", ";", "=", "a", "a=\"", "a=\\", "a=\"\\", "a=\"\\07", "a=\"\\9\"", "=;=;", ";" * 300, "a=\xff", "a=" + "\\" * 99, 'a="\\"', "a=1; " * 1500, ";" * 3000, "=" * 3000, "a=" + "\\" * 2001, 'a="' + "\\0" * 1500 + '"'],
     "Date": ["Wed, 21 Oct 2015 07:28:00 -0000", "Wed, 21 Oct 2015 07:28:00", "Wed, 21 Oct 2015 07:28:00 XYZ", "", "x", "Wed, 21 Oct 2015 07:28:00 +9999999999", "Wed, 21 Oct 99999 07:28:00 GMT", "Wed, 32 Oct 2015 07:28:00 GMT", "0", "Wed, 21 Oct 2015 25:61:61 GMT",
              "Wed, 21 Oct 2015 07:28:00 -" + "9" * 50, "21 Oct 0000 00:00:00 GMT", "Wed, 21 Oct 2015 07:28:00 GMT" * 10, "1 Jan 1 0:0:0 +9999", "Thu, 01 Jan 1970 00:00:00 -2400",
